@@ -173,6 +173,27 @@ def run_straightline(stmts, env: dict, stubs: dict | None = None, call_hook=None
     return env
 
 
+class UnknownValue(Exception):
+    """a value that the sample does not determine was needed as a truth value"""
+
+
+class _Unknown:
+    def __bool__(self):
+        raise UnknownValue()
+
+    def __repr__(self):
+        return "<unknown>"
+
+    def __eq__(self, o):
+        raise UnknownValue()
+
+    def __hash__(self):
+        return 0
+
+
+UNKNOWN = _Unknown()
+
+
 class _Leave(Exception):
     def __init__(self, how="leave"):
         self.how = how
@@ -208,7 +229,31 @@ def run_body(stmts, env: dict, stubs: dict | None = None) -> dict:
 def _run(stmts, env, stubs):
     for st in stmts:
         if isinstance(st, ast.If):
-            _run(st.body if ceval(st.test, env, stubs) else st.orelse, env, stubs)
+            try:
+                take = bool(ceval(st.test, env, stubs))
+            except (Unsupported, UnknownValue):
+                # the sample does not decide this test: follow both branches; what they disagree on is unknown afterwards
+                e1, e2 = dict(env), dict(env)
+                l1 = l2 = None
+                try:
+                    _run(st.body, e1, stubs)
+                except _Leave as l:
+                    l1 = l
+                try:
+                    _run(st.orelse, e2, stubs)
+                except _Leave as l:
+                    l2 = l
+                for k in set(e1) | set(e2):
+                    a, b = e1.get(k, UNKNOWN), e2.get(k, UNKNOWN)
+                    try:
+                        same = (a is b) or (type(a) is type(b) and a == b)
+                    except Exception:
+                        same = False
+                    env[k] = a if same else UNKNOWN
+                if l1 is not None and l2 is not None:
+                    raise l1
+                continue
+            _run(st.body if take else st.orelse, env, stubs)
         elif isinstance(st, ast.Assign):
             try:
                 v = ceval(st.value, env, stubs)
